@@ -34,7 +34,7 @@ def main():
         if a.prop == "C02":
             from checks.txcheck import run_check
             rc = run_check(tier, seed)
-        elif a.prop in props.SIM:
+        elif a.prop in props.SIM and a.prop != "C12":
             from checks.simcheck import run_check
             rc = run_check(a.prop, props.SIM[a.prop], tier, seed, replay=a.replay)
             if rc != 2 and a.prop in ("C03", "C10", "C15", "C20") and not a.replay:
